@@ -226,7 +226,28 @@ fn token_end(b: &[u8], pos: usize) -> usize {
 pub fn mutate(rng: &mut Rng, seed: &[u8], other: &[u8]) -> (Vec<u8>, &'static str) {
     let starts = token_starts(seed);
     let pos = *rng.pick(&starts);
-    match rng.below(10) {
+    match rng.below(13) {
+        10 => {
+            // delete the tail of a token: from a random byte to the end of the token it is in
+            let i = rng.usize(seed.len() + 1);
+            let e = token_end(seed, i);
+            let mut m = seed[..i].to_vec();
+            m.extend_from_slice(&seed[e..]);
+            (m, "token-tail-delete")
+        }
+        11 | 12 => {
+            // insert a short substring of the seed itself at a token boundary
+            if seed.is_empty() {
+                return (vec![], "self-insert");
+            }
+            let a = rng.usize(seed.len());
+            let l = 1 + rng.usize(3);
+            let b = std::cmp::min(seed.len(), a + l);
+            let mut m = seed[..pos].to_vec();
+            m.extend_from_slice(&seed[a..b]);
+            m.extend_from_slice(&seed[pos..]);
+            (m, "self-insert")
+        }
         0 => {
             // insert token
             let t = *rng.pick(TOKENS);
